@@ -274,12 +274,14 @@ def refConcat (axis : Option Nat) (a b : Shape) : Option Shape :=
 
 /-! ### argument kinds -/
 
-/-- index-array argument: compile-time tuple / clipped (values run time, maxima static) / `array<int,N>` / `vector<int>` -/
+/-- index-array argument: compile-time tuple / clipped (values run time, maxima static) / `array<int,N>` / `vector<int>` /
+    `static_vector<int,cap>` (length run time, at most `cap`) -/
 inductive ArrK where
   | ct (v : List Nat)
   | cl (maxima : List Nat)
   | rt (n : Nat)
   | rtv
+  | bnd (cap : Nat)
   deriving DecidableEq, Repr
 
 /-- the run-time value `v` is admitted by the argument kind -/
@@ -288,18 +290,21 @@ def ArrK.γ : ArrK → List Nat → Prop
   | .cl m, v => LeAll v m
   | .rt n, v => v.length = n
   | .rtv, _ => True
+  | .bnd cap, v => v.length ≤ cap
 
 def ArrK.toShapeK : ArrK → ShapeK
   | .ct v => .const v
   | .cl m => .clipped m
   | .rt n => .fixedDim n
   | .rtv => .dyn
+  | .bnd cap => .boundedDim cap
 
 def ArrK.lenK : ArrK → LenK
   | .ct v => .fixed v.length
   | .cl m => .fixed m.length
   | .rt n => .fixed n
   | .rtv => .dyn
+  | .bnd cap => .bounded cap
 
 /-- axis argument: none / compile-time scalar / compile-time tuple / run-time scalar / run-time `array<int,N>` -/
 inductive AxisK where
